@@ -23,6 +23,12 @@ use std::time::Instant;
 pub const VERIF_ROOT: &str = "/verif";
 pub const SHARDS: u32 = 16;
 
+/// where replays and evidence are written: /verif, unless DV_OUT redirects them (used only by
+/// tools/mutcheck.sh, which runs the checks against a scratch copy of /repo)
+pub fn out_root() -> String {
+    std::env::var("DV_OUT").unwrap_or_else(|_| VERIF_ROOT.to_string())
+}
+
 #[derive(Clone, Copy, PartialEq, Eq, Debug)]
 pub enum Tier {
     Quick,
@@ -639,7 +645,7 @@ impl Check {
     }
 
     fn write_replay<C: Serialize + Debug>(&self, sub: &str, c: &C, sig: &str) -> PathBuf {
-        let dir = format!("{}/replays/{}", VERIF_ROOT, self.property);
+        let dir = format!("{}/replays/{}", out_root(), self.property);
         let _ = std::fs::create_dir_all(&dir);
         let case = serde_json::to_value(c).unwrap_or(Value::Null);
         let h = str_hash(&format!("{sub}{case}"));
@@ -767,7 +773,7 @@ impl Check {
             "violations": violations,
             "violation_list": viol_list,
         });
-        let dir = format!("{}/evidence", VERIF_ROOT);
+        let dir = format!("{}/evidence", out_root());
         let _ = std::fs::create_dir_all(&dir);
         let path = format!("{dir}/{}.json", self.property);
         if let Err(e) = std::fs::write(&path, serde_json::to_string_pretty(&doc).unwrap()) {
